@@ -163,6 +163,10 @@ func VerifC11_routing() {
 	if vfChoice("reg-row-cell", 2) == 1 {
 		vfAssert(t.RegisterPropertyCallback(r, CB_AT_ADD, CB_ON_CELL, mk("row-cell-add")) == nil, "register-ok")
 		vfTag("row-cell-callback")
+		if vfChoice("reg-row-cell-2", 2) == 1 {
+			vfAssert(t.RegisterPropertyCallback(r, CB_AT_ADD, CB_ON_CELL, mk("row-cell-add-2")) == nil, "register-ok")
+			vfTag("two-row-cell-callbacks")
+		}
 	}
 	if vfChoice("reg-row-itself", 2) == 1 {
 		vfAssert(t.RegisterPropertyCallback(r, CB_AT_ADD, CB_ON_ITSELF, mk("row-itself-add")) == nil, "register-ok")
@@ -182,6 +186,11 @@ func VerifC11_routing() {
 		vfAssert(t.RegisterPropertyCallback(r, CB_AT_RENDER_PRECELL, CB_ON_ITSELF, mk("row-pre-render")) == nil, "register-ok")
 		vfAssert(t.RegisterPropertyCallback(t, CB_AT_RENDER_POSTCELL, CB_ON_ITSELF, mk("table-post-render")) == nil, "register-ok")
 		t.InvokeRenderCallbacks()
+	}
+	if vfChoice("render", 2) == 1 {
+		// printing the table for debugging must not disturb it
+		dump := t.GoString()
+		vfAssert(len(dump) > 0, "debug-print-works")
 	}
 	got := t.Errors()
 	total := len(raised) + direct + misuse
